@@ -3,9 +3,10 @@
   Property theorems only; definitions: Tranp/Model/{Ty,Infer,PyEval,InferSpec}.lean, helper lemmas: Tranp/Lemmas/Infer.lean.
 
   Vocabulary (Tranp/Model/InferSpec.lean): `Conf v T` = the inferred type `T` denotes the run-time value `v`;
-  `Core Γ e` = the expression subset the property's sentence covers; `WellTyped Γ e` = Core minus the three places where
-  the code is known to disagree with CPython (unary operator on bool, `bool &,| int`, slice of a tuple);
-  `infer Γ e s` threads the session state `s` ("the library's Union symbol already carries attributes").
+  `Core Γ e` = the expression subset the property's sentence covers (`WellTyped` is a synonym since the repairs
+  9370d50 / 4f4a122 / c5f6dc1 / 401dc97 / e9f8d3f of the code); `infer Γ e s` still carries the session state `s`
+  ("the library's Union symbol carries attributes") that `on_list` used to leak — `session_independent` proves that no
+  handler reads or writes it any more.
 -/
 import Tranp.Lemmas.Infer
 
@@ -38,95 +39,106 @@ theorem dunder_unary : ∀ row ∈ unaryRows, ∀ (x v : Val), typeOf x = row.1 
   obtain ⟨hl, hret, hop⟩ := htab row hrow
   rw [hret]
   have hcx : Conf x row.1 := conf_of_typeOf_scalar (by rcases hl with h | h <;> rw [h] <;> decide) hx
-  have hok : factorOk true row.2.1 row.1 = true := by
-    rcases hl with h | h <;> simp [factorOk, h, hop]
-  exact typeOf_of_conf_scalar (by rcases hl with h | h <;> rw [h] <;> decide) (evalFactor_conf hcx hok hev)
+  have hok : factorOk row.2.1 row.1 = true := by
+    rcases hl with h | h <;> rw [h] <;> cases hr : row.2.1 <;> first | rfl | exact absurd hr hop
+  have hc := evalFactor_conf hcx hok hev
+  have hnb : row.1 ≠ .bool := by rcases hl with h | h <;> rw [h] <;> decide
+  rw [if_neg hnb] at hc
+  exact typeOf_of_conf_scalar (by rcases hl with h | h <;> rw [h] <;> decide) hc
 
 example : unaryRows.length = 4 ∧ (evalFactor .neg (.int 3)).map typeOf = .ok .int := by decide +kernel
 
-/-- On scalar operands, one step of `each_binary_operator` over the generated table either gives CPython's result type
-    or is one of `bool & int`, `bool | int` (typed `bool`, CPython: `int`): there is no other scalar disagreement. -/
+/-- On scalar operands, one step of `each_binary_operator` over the generated table gives CPython's result type whenever
+    CPython accepts the operands (no scalar disagreement is left since 4f4a122; the stub still accepts a few operand
+    pairs CPython rejects, e.g. `int << float`, because shifts are not selected by the argument type). -/
 theorem step_agreement : ∀ l ∈ scalarTys, ∀ r ∈ scalarTys, ∀ op ∈ binOps, ∀ t, tryStep l op r = some t →
-    pyBinTy op l r = some t ∨ boolBitInt l op r = true ∨ pyBinTy op l r = none := by
+    pyBinTy op l r = some t ∨ pyBinTy op l r = none := by
   decide +kernel
 
-example : tryStep .int .add .float = some .float ∧ tryStep .bool .bor .int = some .bool ∧ pyBinTy .bor .bool .int = some .int := by
+example : tryStep .int .add .float = some .float ∧ tryStep .bool .bor .int = some .int ∧ pyBinTy .bor .bool .int = some .int := by
   decide +kernel
 
 /-! ## soundness -/
 
-/-- The property's sentence on the model: on Core, the inferred type denotes the run-time value. -/
-def sound_statement : Prop :=
-  ∀ (Γ : Env) (ρ : VEnv) (e : Expr) (v : Val), Core Γ e → EnvConf ρ Γ → eval ρ e = .ok v →
-    ∃ T, inferT Γ e = .ok T ∧ Conf v T
-
-/-- `on_factor` returns the operand's type (reflections.py:593-594): `-True` is typed `bool`, CPython computes the `int` -1. -/
-theorem sound_counterexample : ¬ sound_statement := by
-  intro h
-  obtain ⟨T, hT, hc⟩ := h [] [] (.factor .neg .true_) (.int (-1)) (by decide) (by intro x T hx; simp [lookup] at hx) (by rfl)
-  have : T = .bool := by
-    have : inferT [] (.factor .neg .true_) = .ok .bool := by decide
-    rw [this] at hT; cases hT; rfl
-  subst this
-  cases hc
-
-/-- The same failure for `bool | int` (non-arithmetic operators skip the parameter check, traits.py:193-195). -/
-theorem sound_counterexample_bool_or_int : ∃ (Γ : Env) (ρ : VEnv) (e : Expr) (v : Val),
-    Core Γ e ∧ EnvConf ρ Γ ∧ eval ρ e = .ok v ∧ inferT Γ e = .ok .bool ∧ typeOf v = .int :=
-  ⟨[], [], .bin .true_ (.cons .bor (.int 2) .nil), .int 3, by decide +kernel, by intro x T hx; simp [lookup] at hx,
-    by rfl, by decide +kernel, rfl⟩
-
-/-- …and for a slice of a tuple, which keeps the receiver's type (reflections.py:461-462). -/
-theorem sound_counterexample_tuple_slice : ∃ (Γ : Env) (ρ : VEnv) (e : Expr) (v : Val),
-    Core Γ e ∧ EnvConf ρ Γ ∧ eval ρ e = .ok v ∧
-    inferT Γ e = .ok (.tuple (.cons .int (.cons .str .nil))) ∧ typeOf v = .tuple (.cons .int .nil) := by
-  refine ⟨[(['t'], .tuple (.cons .int (.cons .str .nil)))], [(['t'], .tuple [.int 1, .str ['a']])],
-    .slice (.var ['t']) (.int 0) (.int 1), .tuple [.int 1], by decide +kernel, ?_, by rfl, by decide +kernel, rfl⟩
-  intro x T hx
-  simp only [lookup] at hx ⊢
-  split at hx
-  · cases hx
-    rename_i hxt; subst hxt
-    exact ⟨.tuple [.int 1, .str ['a']], by simp, .tuple (.cons (.int 1) (.cons (.str ['a']) .nil))⟩
-  · cases hx
-
-/-- On the agreement subset: inference succeeds from every session state, leaves the state untouched, and the inferred type
-    denotes the value CPython computes (unbounded: induction over expressions, lists, operator chains, dict items). -/
-theorem sound_partial {Γ : Env} {ρ : VEnv} {e : Expr} {v : Val}
-    (hwt : WellTyped Γ e) (henv : EnvConf ρ Γ) (hev : eval ρ e = .ok v) :
+/-- The property's sentence on the model: on Core, inference succeeds (from every session state, leaving it untouched) and
+    the inferred type denotes the value CPython computes. Unbounded: induction over expressions, lists, operator chains,
+    dict items; includes unary operators on bool, `bool | int`, tuple slices with literal bounds, stub calls, comprehensions. -/
+theorem sound_conf {Γ : Env} {ρ : VEnv} {e : Expr} {v : Val}
+    (hcore : Core Γ e) (henv : EnvConf ρ Γ) (hev : eval ρ e = .ok v) :
     ∃ T, (∀ s, infer Γ e s = (.ok T, s)) ∧ Conf v T := by
-  obtain ⟨T, hT⟩ := infer_ok true e Γ hwt
-  exact ⟨T, hT, sound_expr e Γ ρ T v hwt henv hT hev⟩
+  obtain ⟨T, hT⟩ := infer_ok e Γ hcore
+  exact ⟨T, hT, sound_expr e Γ ρ T v hcore henv hT hev⟩
 
-/-- `C03.sound`: on the agreement subset, for a value whose run-time type is determined and a plain inferred type
-    (no Union, no iterator class), the inferred type EQUALS the run-time type. -/
+/-- `C03.sound`: on Core, for a value whose run-time type is determined and a plain inferred type (no Union, no iterator
+    class), the inferred type EQUALS the run-time type. -/
 theorem sound {Γ : Env} {ρ : VEnv} {e : Expr} {v : Val} {T : Ty}
-    (hwt : WellTyped Γ e) (henv : EnvConf ρ Γ) (hev : eval ρ e = .ok v) (hdet : DetV v)
+    (hcore : Core Γ e) (henv : EnvConf ρ Γ) (hev : eval ρ e = .ok v) (hdet : DetV v)
     (hT : inferT Γ e = .ok T) (hplain : T.plain = true) : inferT Γ e = .ok (typeOf v) := by
-  obtain ⟨T', hT', hc⟩ := sound_partial hwt henv hev
+  obtain ⟨T', hT', hc⟩ := sound_conf hcore henv hev
   have : T' = T := by
     have h1 : inferT Γ e = .ok T' := by unfold inferT; rw [hT' false]
     rw [h1] at hT; cases hT; rfl
   subst this
   rw [hT, conf_typeOf hc hplain hdet]
 
-/-- non-vacuity: `[x * 2 for x in xs if x > 1]` with `xs = [1, 2, 3]` is in the agreement subset, evaluates to `[4, 6]`,
-    whose run-time type `list<int>` is determined and equals the inferred one -/
+/-- non-vacuity: `[x * 2 for x in xs if x > 1]` with `xs = [1, 2, 3]` is in Core, evaluates to `[4, 6]`, whose run-time type
+    `list<int>` is determined and equals the inferred one -/
 example :
     let Γ : Env := [(['x', 's'], .list .int)]
     let ρ : VEnv := [(['x', 's'], .list [.int 1, .int 2, .int 3])]
     let e : Expr := .listComp (.bin (.var ['x']) (.cons .mul (.int 2) .nil)) [['x']] (.var ['x', 's'])
       (.cmp (.var ['x']) (.cons .gt (.int 1) .nil))
-    wt true Γ e = true ∧ (eval ρ e).map typeOf = .ok (.list .int) ∧ inferT Γ e = .ok (.list .int) := by
+    wt Γ e = true ∧ (eval ρ e).map typeOf = .ok (.list .int) ∧ inferT Γ e = .ok (.list .int) := by
+  decide +kernel
+
+/-- the former counterexamples are inside Core and typed as CPython types them: `-True`, `True | 2`, `t[0:1]` -/
+example :
+    let Γ : Env := [(['t'], .tuple (.cons .int (.cons .str .nil)))]
+    (wt Γ (.factor .neg .true_) = true ∧ inferT Γ (.factor .neg .true_) = .ok .int) ∧
+    (wt Γ (.bin .true_ (.cons .bor (.int 2) .nil)) = true ∧ inferT Γ (.bin .true_ (.cons .bor (.int 2) .nil)) = .ok .int) ∧
+    (wt Γ (.slice (.var ['t']) (.int 0) (.int 1)) = true ∧ inferT Γ (.slice (.var ['t']) (.int 0) (.int 1)) = .ok (.tuple (.cons .int .nil))) := by
   decide +kernel
 
 /-- non-vacuity of the denotation form on an optional: `o if p else a` with `o : int | None` -/
 example :
     let Γ : Env := [(['o'], .union (.cons .int (.cons .none .nil))), (['a'], .int), (['p'], .bool)]
     let e : Expr := .tern (.var ['o']) (.var ['p']) (.var ['a'])
-    wt true Γ e = true ∧
+    wt Γ e = true ∧
       inferT Γ e = .ok (.union (.cons (.union (.cons .int (.cons .none .nil))) (.cons .int .nil))) := by
   decide +kernel
+
+/-! ### what is still false on the code (both listed as known findings) -/
+
+/-- known finding `list-literal-class-dedup`: `on_list` keeps one element type per CLASS, the last one
+    (reflections.py:681): `[[None], [1]]` is typed `list<list<int>>` although its first element is a `list<None>`.
+    (Core requires every element type of a list literal to survive that selection.) -/
+theorem list_literal_counterexample : ∃ (e : Expr) (v : Val),
+    eval [] e = .ok v ∧ inferT [] e = .ok (.list (.list .int)) ∧ ¬ Conf v (.list (.list .int)) ∧ wt [] e = false := by
+  refine ⟨.list (.cons (.list (.cons .none_ .nil)) (.cons (.list (.cons (.int 1) .nil)) .nil)),
+    .list [.list [.none], .list [.int 1]], by rfl, by decide +kernel, ?_, by decide +kernel⟩
+  intro h
+  obtain ⟨vs, hvs, hall⟩ := h.list_inv
+  cases hvs
+  have h0 := hall.mem (.list [.none]) (by simp)
+  obtain ⟨ws, hws, hall0⟩ := h0.list_inv
+  cases hws
+  have := hall0.mem .none (by simp)
+  cases this
+
+/-- known finding `dict-get-missing-key`: the stub types `dict.get(key)` as the value type (classes.py:120), CPython returns
+    `None` for a missing key. (Core admits `get` only with a default of the value type.) -/
+theorem dict_get_counterexample : ∃ (Γ : Env) (ρ : VEnv) (e : Expr) (v : Val),
+    EnvConf ρ Γ ∧ eval ρ e = .ok v ∧ inferT Γ e = .ok .int ∧ ¬ Conf v .int ∧ wt Γ e = false := by
+  refine ⟨[(['d'], .dict .str .int)], [(['d'], .dict [.str ['k']] [.int 1])],
+    .call (.var ['d']) ['g', 'e', 't'] (.cons (.str ['z']) .nil), .none, ?_, by rfl, by decide +kernel, ?_, by decide +kernel⟩
+  · intro x T hx
+    simp only [lookup] at hx ⊢
+    split at hx
+    · cases hx
+      rename_i hxd; subst hxd
+      exact ⟨.dict [.str ['k']] [.int 1], by simp, .dict (.cons (.str _) .nil) (.cons (.int 1) .nil)⟩
+    · cases hx
+  · intro h; cases h
 
 /-! ## totality -/
 
@@ -134,60 +146,43 @@ example :
     (for an environment whose declared types contain none). -/
 theorem total {Γ : Env} {e : Expr} (hcore : Core Γ e) (hΓ : EnvNoUnknown Γ) :
     ∃ T, (∀ s, infer Γ e s = (.ok T, s)) ∧ T.noUnknown = true := by
-  obtain ⟨T, hT⟩ := infer_ok false e Γ hcore
-  exact ⟨T, hT, infer_noUnknown false e Γ T hcore hΓ hT⟩
-
-/-- the agreement subset is part of Core -/
-theorem wellTyped_core {Γ : Env} {e : Expr} (h : WellTyped Γ e) : Core Γ e := wt_mono e Γ h
+  obtain ⟨T, hT⟩ := infer_ok e Γ hcore
+  exact ⟨T, hT, infer_noUnknown e Γ T hcore hΓ hT⟩
 
 example : Core [] (.dict (.cons (.str ['k']) (.list (.cons (.int 1) .nil)) .nil)) ∧
     inferT [] (.dict (.cons (.str ['k']) (.list (.cons (.int 1) .nil)) .nil)) = .ok (.dict .str (.list .int)) := by
   decide +kernel
 
-/-- The session state matters outside Core: the result of inference for one and the same expression should not depend on
-    what the session inferred before. -/
-def session_independent_statement : Prop :=
-  ∀ (Γ : Env) (e : Expr) (s : Bool), (infer Γ e s).1 = (infer Γ e false).1
+/-- The result of inference for an expression does not depend on what the session inferred before, and inference leaves the
+    session state as it found it — for EVERY expression of the model, well-typed or not, also when inference fails.
+    (False before 401dc97: `on_list` extended the library's shared `Union` symbol.) -/
+theorem session_independent (Γ : Env) (e : Expr) (s : Bool) : infer Γ e s = ((infer Γ e false).1, s) := by
+  obtain ⟨r, hr⟩ := infer_stateless e Γ
+  rw [hr s, hr false]
 
-/-- `on_list` extends the library's shared `Union` symbol (reflections.py:674): the first heterogeneous list literal of a
-    session is typed `list<Union<…>>`, every later one raises `Errors.Never`. -/
-theorem session_independent_counterexample : ¬ session_independent_statement := by
-  intro h
-  have := h [] (.list (.cons (.int 1) (.cons (.str ['a']) .nil))) true
-  revert this
-  decide +kernel
-
-/-- On Core the session state is irrelevant (and left untouched). -/
-theorem session_independent_partial {Γ : Env} {e : Expr} (hcore : Core Γ e) (s : Bool) :
-    infer Γ e s = ((infer Γ e false).1, s) := by
-  obtain ⟨T, hT⟩ := infer_ok false e Γ hcore
-  rw [hT s, hT false]
-
-/-- the second heterogeneous literal fails even inside a single expression of a fresh session -/
+/-- two heterogeneous list literals in one expression, from a session that already inferred one -/
 example : (infer [] (.tuple (.cons (.list (.cons (.int 1) (.cons (.str ['a']) .nil)))
-    (.cons (.list (.cons (.int 1) (.cons .none_ .nil))) .nil))) false).1 = .error .never := by decide +kernel
+    (.cons (.list (.cons (.int 1) (.cons .none_ .nil))) .nil))) true).1
+    = .ok (.tuple (.cons (.list (.union (.cons .int (.cons .str .nil)))) (.cons (.list (.union (.cons .int (.cons .none .nil)))) .nil))) := by
+  decide +kernel
 
 /-! ## template substitution -/
 
-/-- A generic stub method applied to a receiver returns the receiver's type argument, e.g. `list[T].pop() : T`. -/
-def template_statement : Prop :=
-  ∀ (t : Ty), (findMethod ['l', 'i', 's', 't'] ['p', 'o', 'p']).map (fun row => returnsOf row (.list t) .nil) = some t
-
-/-- `_normalize_props` drops the level of a `Union` in the ACTUAL type as well (template.py:326-329), so the first member of
-    the union is taken for the template: `list[int | None].pop()` is typed `int`. -/
-theorem template_counterexample : ¬ template_statement := by
-  intro h
-  have := h (.union (.cons .int (.cons .none .nil)))
-  revert this
-  decide +kernel
-
-/-- for union-free element types of the shapes used by the correspondence the substitution is the expected one -/
-theorem template_partial : ∀ t ∈ [Ty.int, .float, .bool, .str, .list .int, .dict .str .int, .tuple (.cons .int (.cons .str .nil)),
-      .list (.list .str)],
+/-- A generic stub method applied to a receiver returns the receiver's type argument, whatever it is: `list[T].pop() : T`
+    for EVERY type `T` — Unions (optionals) and nested generics included. Proved on the step-by-step port of
+    `TemplateManipulator` (flatten, normalise, `_find_actual_path`, `make_updates`, `apply`), by induction on `T`.
+    (False before e9f8d3f: `list[int | None].pop()` was typed `int`.) -/
+theorem template (t : Ty) :
     (findMethod ['l', 'i', 's', 't'] ['p', 'o', 'p']).map (fun row => returnsOf row (.list t) .nil) = some t := by
-  decide +kernel
+  rw [findMethod_pop]
+  simp only [Option.map_some, returnsOf_pop]
 
-example : (findMethod ['l', 'i', 's', 't'] ['p', 'o', 'p']).map (fun row => returnsOf row (.list (.union (.cons .int (.cons .none .nil)))) .nil)
-    = some .int := by decide +kernel
+/-- the former counterexample and the shapes of the (repaired) finding `template-union-first-member`, via other rows -/
+example :
+    let opt : Ty := .union (.cons .int (.cons .none .nil))
+    (findMethod ['l', 'i', 's', 't'] ['p', 'o', 'p']).map (fun row => returnsOf row (.list opt) .nil) = some opt ∧
+    (findMethod ['l', 'i', 's', 't'] ['c', 'o', 'p', 'y']).map (fun row => returnsOf row (.list opt) .nil) = some (.list opt) ∧
+    inferT [(['x', 'o'], .list opt)] (.listComp (.var ['z']) [['z']] (.var ['x', 'o']) .true_) = .ok (.list opt) := by
+  decide +kernel
 
 end Tranp.C03
